@@ -22,7 +22,9 @@ import threading
 
 SUBJECT = {
     "api": "dynamo0.3",
-    "alg": "src/psyclone/tests/test_files/dynamo0p3/1_single_invoke.f90",
+    # input data (algorithm + kernel source) always comes from the unmodified
+    # repository; the PSyclone code under test from $PV_REPO/src
+    "alg": "/repo/src/psyclone/tests/test_files/dynamo0p3/1_single_invoke.f90",
     "base": "testkern",
 }
 STALL_S = 120            # a blocked handshake longer than this is a machinery failure
@@ -37,7 +39,7 @@ class Stall(Exception):
 def parse_subject(repo):
     '''Parse the algorithm file (and its kernel) once per process.'''
     from psyclone.parse.algorithm import parse
-    _, info = parse(os.path.join(repo, SUBJECT["alg"]), api=SUBJECT["api"])
+    _, info = parse(SUBJECT["alg"], api=SUBJECT["api"])
     return info
 
 
@@ -195,7 +197,11 @@ class Scheduler:
             self.cv.notify_all()
         self._wait_quiet(run)
         event = self.last_event
-        event["fs"], event["stray"] = self.project(run)
+        wrote = None
+        if event["call"] == "write" and event["res"] == "ok" \
+                and not event["name"].startswith("x:"):
+            wrote = f"{SUBJECT['base']}_{event['name']}_mod.f90"
+        event["fs"], event["stray"] = self.project(run, wrote)
         if event["call"] == "write":
             # class of the file content after the write
             event["cls"] = next((f["content"] for f in event["fs"]
@@ -203,9 +209,11 @@ class Scheduler:
         event["next"] = self.pending[run]
         return event
 
-    def project(self, run):
+    def project(self, run, wrote=None):
         '''Abstract file system of the output directory; differences to the
-        previous projection are attributed to `run` (0 = before the runs).'''
+        previous projection are attributed to `run` (0 = before the runs), and
+        so is a successful write call to the file `wrote` (even if it left the
+        same bytes).'''
         files, stray = [], 0
         now = {}
         for fname in sorted(os.listdir(self.outdir)):
@@ -215,7 +223,7 @@ class Scheduler:
             if fname not in self.creator:
                 self.creator[fname] = run
                 self.writers[fname] = set()
-            elif self.bytes.get(fname) != data:
+            elif self.bytes.get(fname) != data or fname == wrote:
                 self.writers[fname].add(run)
         for fname in list(self.bytes):
             if fname not in now:            # removed (or renamed away)
